@@ -7,7 +7,8 @@ Exit codes: 0 held on everything explored; 1 reproduced violation not listed as 
 import json, os, sys, time, pickle, tempfile, traceback, hashlib, shutil, signal
 
 VERIF = os.path.dirname(os.path.dirname(os.path.abspath(__file__)))
-REPO = "/repo"
+REPO = os.environ.get("VERIF_REPO", "/repo")      # the registered commands analyse /repo; tools/regress_seeds.sh points scratch worktrees here
+OUT = os.environ.get("VERIF_OUT", VERIF)           # evidence/ and replays/ (scratch directory for seed regression runs)
 EXIT_OK, EXIT_VIOLATION, EXIT_HARNESS = 0, 1, 3
 
 
@@ -139,7 +140,7 @@ class Check(object):
                 if os.environ.get("VERIF_SHOW_KNOWN"):
                     print("  known-match: %s :: %s" % (json.dumps(sig, sort_keys=True), what[:900]))
                 return False
-        d = os.path.join(VERIF, "replays", self.pid)
+        d = os.path.join(OUT, "replays", self.pid)
         os.makedirs(d, exist_ok=True)
         body = json.dumps({"property": self.pid, "signature": sig, "what": what, "replay": replay},
                           indent=1, sort_keys=True, default=str)
@@ -188,8 +189,8 @@ class Check(object):
             "wall_s": round(wall, 2),
             "violations": len(self.violations),
         }
-        os.makedirs(os.path.join(VERIF, "evidence"), exist_ok=True)
-        p = os.path.join(VERIF, "evidence", "%s.json" % self.pid)
+        os.makedirs(os.path.join(OUT, "evidence"), exist_ok=True)
+        p = os.path.join(OUT, "evidence", "%s.json" % self.pid)
         with open(p + ".tmp", "w") as f:
             json.dump(ev, f, indent=1, default=str)
         os.replace(p + ".tmp", p)
